@@ -17,6 +17,10 @@ PROP = "C19"
 # whose files are not processed independently produces a file that is neither original nor transformed
 DSL = ('begin {@c = 100} $i == 13 {int z = "x"} $i == 66 {$y = asserting_null($i)} '
        '@c += 1; $c = @c; $nr = NR; $fnr = FNR; $f = FILENAME')
+# the second command of the "retry" cases (InPlace.tla, run 2): reads every record, so the files that made the first command
+# fail make it fail in the same way; prints one short record per non-empty file, so its output is SHORTER than anything
+# the first command can have left in a temp file; and T2(T1(file)) = T2(file) because T1 keeps the first record's i
+DSL2 = ('$i == 13 {int z = "x"} $i == 66 {$y = asserting_null($i)} NR == 1 {@r = {"i": $i}} end {emit @r}')
 SITE = {"begin": "inplace.begin", "errReturn": "inplace.errReturn", "tempCreated": "inplace.tempCreated",
         "wrapped": "inplace.wrapped", "wrote": "writer.wrote", "flushed": "main.return",
         "streamDone": "inplace.streamDone", "wrapperClosed": "inplace.wrapperClosed", "closed": "inplace.closed",
@@ -97,6 +101,32 @@ def render(mlr, sc, fmt, crash):
     return case, plan
 
 
+def render_rerun(mlr, sc, fmt, crash):
+    """the first command (killed at the crash point, if any), then the second command on the same files"""
+    import shlex
+    case, plan = render(mlr, sc, fmt, crash)
+    argv1 = case["argv"]
+    argv2 = [mlr, "-I"] + FORMATS[fmt]["flags"] + (["--prepipe", "cat"] if sc["prepipe"] else []) + ["put", "-q", DSL2] + [p["name"] for p in plan]
+    env1 = "MLR_VERIF_TRACE=trace.ndjson" + (" MLR_VERIF_CRASH='%s#%d'" % (SITE[crash[0]], crash[1]) if crash else "")
+    case = dict(case)
+    case["env"] = {}
+    case["shell"] = "%s %s 2>err1.txt; echo $? > rc1.txt; MLR_VERIF_TRACE=trace2.ndjson exec %s" % (
+        env1, " ".join(shlex.quote(a) for a in argv1), " ".join(shlex.quote(a) for a in argv2))
+    case["argv2"] = argv2
+    return case, plan
+
+
+def reference2_cases(mlr, p, fmt, ref1):
+    """what the second command prints for this file alone: on the original bytes and on the first command's output"""
+    out = []
+    raw = gzip.decompress(p["bytes"]) if p["gz"] else p["bytes"]
+    for tag, body in (("orig", raw), ("new", ref1)):
+        name = "x." + FORMATS[fmt]["ext"]
+        out.append({"argv": [mlr] + FORMATS[fmt]["flags"] + ["put", "-q", DSL2, name],
+                    "files_b64": {name: base64.b64encode(body).decode()}, "b64": True})
+    return out
+
+
 def reference_cases(mlr, sc, fmt):
     """the property's own definition of the transformed contents: the same command without -I on each file alone"""
     plan = file_plan(sc, fmt)
@@ -110,13 +140,15 @@ def reference_cases(mlr, sc, fmt):
     return out
 
 
-def observe(sc, plan, refs, res):
+def observe(sc, plan, refs, res, refs2=None):
     files = []
     got = res.get("files_b64") or {}
     modes = res.get("modes") or {}
     for p, ref in zip(plan, refs):
         if p["name"] not in got:
             files.append({"exists": False, "isOrig": False, "isNew": False, "mode": "none"})
+            if refs2 is not None:
+                files[-1]["isNew2"] = False
             continue
         data = base64.b64decode(got[p["name"]])
         is_new = False
@@ -131,15 +163,24 @@ def observe(sc, plan, refs, res):
         m = modes.get(p["name"])
         files.append({"exists": True, "isOrig": data == p["bytes"], "isNew": is_new,
                       "mode": "orig" if m == p["mode"] else "temp" if m == 0o600 else "other"})
+        if refs2 is not None:
+            r2 = refs2[len(files) - 1]
+            is2 = False
+            if r2 is not None:
+                try:
+                    is2 = (gzip.decompress(data) if p["gz"] else data) == r2
+                except Exception:
+                    is2 = False
+            files[-1]["isNew2"] = is2
     temps = sum(1 for name in got if "mlr-in-place-" in name)
     killed = res.get("signal") == "killed" or res["exit"] == 137 or res["exit"] == -1 and res.get("signal")
     ex = "killed" if killed else "ok" if res["exit"] == 0 else "err"
     return {"exit": ex, "temps": temps, "files": files}
 
 
-def events(res):
+def events(res, name="trace.ndjson"):
     raw = []
-    for line in ((res.get("files") or {}).get("trace.ndjson", "")).splitlines():
+    for line in ((res.get("files") or {}).get(name, "")).splitlines():
         if line.strip().endswith("}"):
             try:
                 raw.append(json.loads(line))
@@ -172,8 +213,8 @@ def run(tier, seed):
 
     # ---- 1. the protocol with Crash in every state, exhaustively -----------------------------
     mf = 3
-    cfg = ("SPECIFICATION Spec\nCONSTANTS\n  Scenarios <- MCScenarios\n  MaxFiles = %d\n"
-           "INVARIANTS Atomic LaterUntouched EarlierDone NoTempAfterErrReturn SuccessMeansAll RefusedBeforeModify LeftoverOnlyByCrash\n"
+    cfg = ("SPECIFICATION Spec\nCONSTANTS\n  Scenarios <- MCScenarios\n  MaxFiles = %d\n  MaxRuns = 2\n  ReuseStaleTemp = FALSE\n"
+           "INVARIANTS Atomic LaterUntouched EarlierDone NoTempAfterErrReturn SuccessMeansAll RefusedBeforeModify LeftoverOnlyByCrash FreshTemp\n"
            "PROPERTY RenameOnlyComplete\nCHECK_DEADLOCK TRUE\n" % mf)
     r = vlib.tlc("MCInPlace", cfg="gen.cfg", extra_files={"gen.cfg": cfg}, timeout=3000)
     if r.error:
@@ -182,10 +223,19 @@ def run(tier, seed):
     cov["tlc_runs"].append({"module": "MCInPlace", "max_files": mf, "distinct_states": r.distinct,
                             "states_generated": r.generated, "result": r.violated or "no error"})
     design_violation = r.violated
+    # self-test of the design check: a temp file with a predictable name, opened without truncation, inherits what a killed
+    # run left in it; TLC must find the named file "mixed" after the retry
+    mcfg = ("SPECIFICATION Spec\nCONSTANTS\n  Scenarios <- MCScenarios\n  MaxFiles = 1\n  MaxRuns = 2\n  ReuseStaleTemp = TRUE\n"
+            "INVARIANTS Atomic\nCHECK_DEADLOCK TRUE\n")
+    m = vlib.tlc("MCInPlace", cfg="gen.cfg", extra_files={"gen.cfg": mcfg}, timeout=3000)
+    cov["design_selftest"] = {"mutation": "ReuseStaleTemp", "expected": "Atomic violated", "result": m.violated or m.error or "no error"}
+    if m.violated != "Atomic":
+        raise vlib.Inconclusive("design self-test: ReuseStaleTemp not detected by TLC: %r" % (m.violated or m.error))
 
     # ---- 2. every crash point of every scenario, on the real binary --------------------------
     gen_mf = 3 if thorough else 2
-    gcfg = ("SPECIFICATION Spec\nCONSTANTS\n  Scenarios <- MCScenarios\n  MaxFiles = %d\nINVARIANT Emit\nCHECK_DEADLOCK FALSE\n" % gen_mf)
+    gcfg = ("SPECIFICATION Spec\nCONSTANTS\n  Scenarios <- MCScenarios\n  MaxFiles = %d\n  MaxRuns = 1\n  ReuseStaleTemp = FALSE\n"
+            "INVARIANT Emit\nCHECK_DEADLOCK FALSE\n" % gen_mf)
     g = vlib.tlc("InPlaceGen", cfg="gen.cfg", extra_files={"gen.cfg": gcfg}, workers=1, timeout=3000)
     if not g.ok:
         raise vlib.Inconclusive("InPlaceGen failed: %s" % (g.error or g.violated))
@@ -206,11 +256,16 @@ def run(tier, seed):
         crash = (gcase["site"], gcase["n"]) if gcase["crash"] else None
         case, plan = render(mlr, sc, fmt, crash)
         cases.append(case)
-        meta.append((sc, fmt, crash, plan))
+        meta.append((sc, fmt, crash, plan, False))
+        # the retry: a second, different command on the same files after the first has ended (killed or not)
+        if not any(fd["kind"] in ("writefail", "tempfail") for fd in sc["files"]) and (thorough or crash or k % 4 == 0):
+            case2, plan2 = render_rerun(mlr, sc, fmt, crash)
+            cases.append(case2)
+            meta.append((sc, fmt, crash, plan2, True))
     # reference transformed contents (one run per distinct file)
     ref_cache = {}
     ref_cases = []
-    for sc, fmt, crash, plan in meta:
+    for sc, fmt, crash, plan, rerun in meta:
         for p, rc in zip(plan, reference_cases(mlr, sc, fmt)):
             key = (fmt, p["name"], p["bytes"])
             if rc is not None and key not in ref_cache:
@@ -220,16 +275,41 @@ def run(tier, seed):
     for rr in ref_res:
         if rr["exit"] != 0:
             raise vlib.Inconclusive("reference run without -I failed: %s" % rr["stderr"][:500])
+    # what the second command prints for each distinct file: T2(original) must equal T2(T1(original))
+    ref2_cache, ref2_cases = {}, []
+    for sc, fmt, crash, plan, rerun in meta:
+        if not rerun:
+            continue
+        for p in plan:
+            key = (fmt, p["name"], p["bytes"])
+            if key in ref_cache and key not in ref2_cache:
+                ref2_cache[key] = len(ref2_cases)
+                ref2_cases += reference2_cases(mlr, p, fmt, base64.b64decode(ref_res[ref_cache[key]].get("stdout_b64", "")))
+    ref2_res = vlib.run_cases(ref2_cases)
+    for k in range(0, len(ref2_res), 2):
+        a, b = ref2_res[k], ref2_res[k + 1]
+        if a["exit"] != 0 or b["exit"] != 0 or a.get("stdout_b64") != b.get("stdout_b64"):
+            raise vlib.Inconclusive("second command: T2(T1(file)) differs from T2(file), or the reference run failed: %r / %r"
+                                    % (a["stderr"][:300], b["stderr"][:300]))
     res = vlib.run_cases(cases)
     vlib.confirm_timeouts(cases, res)
     runs = []
-    for (sc, fmt, crash, plan), case, rr in zip(meta, cases, res):
-        refs = []
+    for (sc, fmt, crash, plan, rerun), case, rr in zip(meta, cases, res):
+        refs, refs2 = [], []
         for p in plan:
             key = (fmt, p["name"], p["bytes"])
             refs.append(base64.b64decode(ref_res[ref_cache[key]].get("stdout_b64", "")) if key in ref_cache else None)
-        o = observe(sc, plan, refs, rr)
-        runs.append({"sc": sc, "ev": events(rr), "obs": o, "_crash": crash, "_fmt": fmt, "_argv": case["argv"][1:],
+            refs2.append(base64.b64decode(ref2_res[ref2_cache[key]].get("stdout_b64", "")) if key in ref2_cache else None)
+        o = observe(sc, plan, refs, rr, refs2 if rerun else None)
+        ev = events(rr)
+        if rerun:
+            rc1 = ((rr.get("files") or {}).get("rc1.txt", "") or "").strip()
+            if not rc1.isdigit():
+                raise vlib.Inconclusive("retry case: the first command's exit status was not recorded: %r" % rr["stderr"][:300])
+            how = "killed" if rc1 == "137" else "ok" if rc1 == "0" else "err"
+            ev = ev + [{"s": "exit", "a": [how]}, {"s": "restart", "a": []}] + events(rr, "trace2.ndjson")
+        runs.append({"sc": sc, "ev": ev, "obs": o, "_crash": crash, "_fmt": fmt, "_argv": case["argv"][1:],
+                     "_argv2": case.get("argv2", [None])[1:] if rerun else None, "_rerun": rerun,
                      "_stderr": rr["stderr"][:500], "_timedout": rr["timed_out"]})
 
     # the property, judged directly on what was observed (independent of the protocol model):
@@ -237,16 +317,23 @@ def run(tier, seed):
     for rn in runs:
         o = rn["obs"]
         key_base = {"fmt": rn["_fmt"], "crash": list(rn["_crash"]) if rn["_crash"] else None}
+        if rn["_rerun"]:
+            key_base["retry"] = True
         if rn["_timedout"]:
             V.violation(dict(key_base, why="hang"), rn)
             continue
         for f, (fd, x) in enumerate(zip(rn["sc"]["files"], o["files"]), start=1):
             if fd["kind"] == "missing":
                 continue
-            if not x["exists"] or not (x["isOrig"] or x["isNew"]):
+            if not x["exists"] or not (x["isOrig"] or x["isNew"] or x.get("isNew2")):
                 V.violation(dict(key_base, why="file neither original nor transformed", kind=fd["kind"]),
                             {"file": f, "run": rn})
-        if o["exit"] == "ok":
+        if o["exit"] == "ok" and rn["_rerun"]:
+            # (modes and left-over temp files depend on where the first command was killed: judged by the specification)
+            for f, (fd, x) in enumerate(zip(rn["sc"]["files"], o["files"]), start=1):
+                if not x.get("isNew2"):
+                    V.violation(dict(key_base, why="second command succeeded but file is not what it prints for that file"), {"file": f, "run": rn})
+        elif o["exit"] == "ok":
             for f, (fd, x) in enumerate(zip(rn["sc"]["files"], o["files"]), start=1):
                 if not (x["isNew"] and x["mode"] == "orig"):
                     V.violation(dict(key_base, why="success but file not transformed or mode not preserved"), {"file": f, "run": rn})
@@ -280,7 +367,7 @@ def run(tier, seed):
         # leftovers after a normal error return, or a temp where the protocol has none, are violations of
         # the statement itself ("failures reported through the normal error path leave no temporary file")
         o = rn["obs"]
-        if o["exit"] == "err" and o["temps"] and not any(fd["kind"] == "abort" for fd in rn["sc"]["files"]):
+        if o["exit"] == "err" and o["temps"] and not rn["_rerun"] and not any(fd["kind"] == "abort" for fd in rn["sc"]["files"]):
             V.violation({"why": "temp file left after error return", "fmt": rn["_fmt"]}, rn)
 
     # self-test of the binding: corrupt an observation and a log, both must be rejected
@@ -290,17 +377,20 @@ def run(tier, seed):
         raise vlib.Inconclusive("in-place trace self-test failed: %r" % st)
 
     crash_runs = sum(1 for rn in runs if rn["_crash"])
-    killed = sum(1 for rn in runs if rn["obs"]["exit"] == "killed")
+    killed = sum(1 for rn in runs if rn["obs"]["exit"] == "killed" or
+                 rn["_rerun"] and any(e["s"] == "exit" and e["a"] == ["killed"] for e in rn["ev"]))
     cov["samples"].append({"kind": "crash replay", "argv": runs[len(runs) // 2]["_argv"], "crash": runs[len(runs) // 2]["_crash"],
                            "events": [e["s"] for e in runs[len(runs) // 2]["ev"]], "observed": runs[len(runs) // 2]["obs"]})
     cov["samples"].append({"kind": "crash replay", "argv": runs[-1]["_argv"], "crash": runs[-1]["_crash"],
                            "events": [e["s"] for e in runs[-1]["ev"]], "observed": runs[-1]["obs"]})
-    distinct = {json.dumps([rn["sc"], rn["_crash"], rn["_fmt"]], sort_keys=True) for rn in runs}
+    distinct = {json.dumps([rn["sc"], rn["_crash"], rn["_fmt"], rn["_rerun"]], sort_keys=True) for rn in runs}
     cov.update({
         "states": states, "transitions": transitions,
         "traces_validated_against_impl": len(runs),
         "evaluations": len(runs) + len(ref_cases),
-        "distinct_nontrivial": len({json.dumps([rn["sc"], rn["_crash"], rn["_fmt"]], sort_keys=True) for rn in runs if rn["_crash"]}),
+        "distinct_nontrivial": len({json.dumps([rn["sc"], rn["_crash"], rn["_fmt"], rn["_rerun"]], sort_keys=True) for rn in runs if rn["_crash"]}),
+        "retry_runs": sum(1 for rn in runs if rn["_rerun"]),
+        "retry_runs_after_a_kill": sum(1 for rn in runs if rn["_rerun"] and any(e["s"] == "exit" and e["a"] == ["killed"] for e in rn["ev"])),
         "rule": "scenarios (file lists x failure kinds x compression) and crash points (hook site, n-th passage) enumerated by TLC "
                 "from InPlace.tla; non-trivial = the process is killed at a crash point; distinct by (scenario, crash point, format)",
         "crash_runs": crash_runs, "runs_actually_killed": killed, "rejected_by_spec": len(rejected),
@@ -312,6 +402,7 @@ def run(tier, seed):
     assumptions = [
         "SIGKILL at a hook site stands for a crash; loss of un-synced data at power failure is outside the model (Miller does not fsync)",
         "crash points are the hook sites of processFileInPlace, every written record and the stream's final flush",
+        "the retry after a crash is one fixed second command (put -q with the same failure triggers, one short record per file at end of stream)",
         "the transformed contents of a file are what the same command without -I prints for that file alone (run on the same binary)",
         "directories made immutable (chattr +i) stand for an unwritable directory, since the checks run as root",
     ]
@@ -342,9 +433,22 @@ def selftest(tl_runs):
     b = copy.deepcopy(base)      # drop the "closed" step: rename before close
     b["ev"] = [e for e in b["ev"] if e["s"] != "closed"]
     c = copy.deepcopy(base)
-    rej, r = validate([a, b, c])
+    batch, expected = [a, b, c], [1, 2]
+    rr = [r for r in tl_runs if any(e["s"] == "restart" for e in r["ev"]) and any(x.get("isNew2") for x in r["obs"]["files"])]
+    if rr:
+        d = copy.deepcopy(rr[0])      # the second command's result is claimed not to be its own output
+        for x in d["obs"]["files"]:
+            if x.get("isNew2"):
+                x["isNew2"] = False
+                x["isOrig"] = x["isNew"] = False
+                break
+        e = copy.deepcopy(rr[0])      # the second command's log without its restart
+        e["ev"] = [v for v in e["ev"] if v["s"] != "restart"]
+        batch += [d, e, copy.deepcopy(rr[0])]
+        expected += [4, 5]
+    rej, r = validate(batch)
     got = sorted(x["rejected"] for x in rej)
-    return {"ok": got == [1, 2], "rejected": got, "expected": [1, 2]}
+    return {"ok": got == expected, "rejected": got, "expected": expected}
 
 
 def replay(path):
